@@ -128,7 +128,11 @@ def run(ctx):
     # CLI: the passphrase is used exactly as given (line terminators, blanks, tabs included), via flag and via PASSWORD
     ph0 = cases[6][1]
     pws = ["TREZOR\n", "TREZOR\r\n", "TREZOR\r", "\n", " TREZOR", "TREZOR ", "\tx\t", "a\nb", "\u3000x\u3000", "TREZOR",
-           "-", "--", "-x", "--password", "- ", "@file", "/dev/stdin", "~", "$HOME", "%s", "\\n"]
+           "-", "--", "-x", "--password", "- ", "@file", "/dev/stdin", "~", "$HOME", "%s", "\\n",
+           # every code point is a passphrase character: private-use, unassigned, non-characters, variation selectors, tags
+           "\ue000", "\uf8ff", "\U0010fffd", "\u0378", "\U000e0001tag", "\ufe0f", "\U0001fffe", "a\u0301\ue000", "\u2065", "\U000f0000x",
+           # ... and keeps its punctuation whatever the spelling of the option (= joined or separate)
+           "correct_horse", "_", "a_b-c", "--hd_path", "x=y", "=", "a=b=c", "under_score--dash", "__"]
     sep = [pw for pw in pws + ["@home", "@", "@@", "@/etc/passwd", "#x", "%PATH%", "*"] if not pw.startswith("-")]
     runs = [dict(args=["export", "--mnemonic", ph0, "--password=" + pw]) for pw in pws] + [dict(args=["export", "--mnemonic", ph0], env=dict(PASSWORD=pw)) for pw in pws] + \
            [dict(args=["export", "--mnemonic", ph0, "--password", pw]) for pw in sep]
